@@ -513,3 +513,49 @@ def merge_semantics(rep, rule, prog, cg):
             rep.ok(rule, key, 'nested groups are skipped with their own tag; the end marker is matched against the enclosing tag', b.loc())
         else:
             rep.bad(rule, key, b.loc(), 'skip_field group handling: %s (end-tag comparison against enclosing tag present=%s): unknown nested groups with a different number make the whole decode fail' % (why or 'no recursive call', cmp_ok))
+
+
+# ------------------------------------------------------------------------------------------------ well-known wrapper types
+def wrappers(rep, rule, prog, cg):
+    """`impl Message for <scalar>` (google.protobuf.*Value wrappers, prost::types): encode_raw and encoded_len decide
+    under the same condition whether field 1 is present, and use the same codec module as merge_field"""
+    fams = {}
+    for b in prog.bodies.values():
+        if b.crate == 'pilota' and b.key.startswith('prost::types::<impl prost::message::Message for ') and b.name in ('encode_raw', 'encoded_len', 'merge_field'):
+            ty = b.key[len('prost::types::<impl prost::message::Message for '):].rsplit('>::', 1)[0]
+            fams.setdefault(ty, {})[b.name] = b
+    n = 0
+    for ty, d in sorted(fams.items()):
+        if ty == '()' or len(d) < 3:
+            continue
+        n += 1
+        key = '%s|wrapper %s' % (rule, ty)
+
+        def enc_calls(b):
+            out = []
+            for cs in b.calls():
+                m = re.search(r'prost::encoding::(\w+)::(\w+)$', cs.callee)
+                if m and m.group(2) != 'skip_field':
+                    out.append((m.group(1), m.group(2), sorted((show(nosite(g[0])), str(g[1])) for g in b.edge_guards(cs.bb))))
+            return out
+        e, l, m = enc_calls(d['encode_raw']), enc_calls(d['encoded_len']), enc_calls(d['merge_field'])
+        mods = {x[0] for x in e} | {x[0] for x in l} | {x[0] for x in m}
+        problems = []
+        if len(e) != 1 or len(m) != 1:
+            problems.append('expected one codec call in encode_raw and merge_field (found %s / %s)' % ([x[:2] for x in e], [x[:2] for x in m]))
+        if len(mods) > 1:
+            problems.append('codec modules differ: %s' % sorted(mods))
+        if e and l:
+            if e[0][2] != l[0][2]:
+                problems.append('field presence is decided by %s in encode_raw but by %s in encoded_len' % (e[0][2], l[0][2]))
+        elif e and not l:
+            # encoded_len folded to constants (bool): the same condition must be what it branches on
+            conds = {show(nosite(d['encoded_len'].expr_op(bb['t']['o']))) for bb in d['encoded_len'].bbs if bb['t']['k'] == 'switch' and not bb['cleanup']}
+            if not ({c for c, v in e[0][2]} <= conds):
+                problems.append('encoded_len does not branch on the condition under which encode_raw writes the field (%s vs %s)' % (e[0][2], sorted(conds)))
+        if problems:
+            rep.bad(rule, key, d['encode_raw'].loc(), 'wrapper message for %s: %s: the reported length is not the number of bytes written for some value' % (ty, '; '.join(problems)))
+        else:
+            rep.ok(rule, key, 'encoding::%s, present iff %s in both encode_raw and encoded_len' % (sorted(mods)[0] if mods else '?', e[0][2] if e else '?'), d['encode_raw'].loc())
+    if n < 8:
+        rep.anchor_missing(rule, 'wrapper Message impls in prost::types (found %d)' % n)
